@@ -390,6 +390,51 @@ func init() {
 							r.Eval()
 						}
 					}
+					// "a new instance": every creation - by any of the constructors, in any order, however many came before -
+					// hands out an empty resource of its own; what the caller does to one never shows in another
+					if terr == nil {
+						mks := []struct {
+							name string
+							mk   func() fhir.Resource
+						}{{"NewFromString", func() fhir.Resource { x, _ := resource.NewFromString(n); return x }}, {"New", func() fhir.Resource { return resource.New(t) }}, {"Type.New", func() fhir.Resource { return t.New() }},
+							{"New(WithID)", func() fhir.Resource { return resource.New(t, resource.WithID("seed")) }}}
+						var made []fhir.Resource
+						for round := 0; round < 2; round++ {
+							for _, m := range mks {
+								var x fhir.Resource
+								if pi := core.Try(func() { x = m.mk() }); pi != nil || x == nil {
+									continue
+								}
+								r.Eval()
+								wantID := ""
+								if m.name == "New(WithID)" {
+									wantID = "seed"
+								}
+								idf := x.ProtoReflect().Descriptor().Fields().ByName("id")
+								gotID := ""
+								if idf != nil && x.ProtoReflect().Has(idf) {
+									gotID = x.ProtoReflect().Get(idf).Message().Interface().(*dtpb.Id).GetValue()
+								}
+								fresh := gotID == wantID
+								if wantID == "" && proto.Size(x) != 0 {
+									fresh = false
+								}
+								for _, old := range made {
+									if old.ProtoReflect() == x.ProtoReflect() || any(old) == any(x) {
+										fresh = false
+									}
+								}
+								if !fresh {
+									r.Fail("New|instance-is-not-new|"+m.name, core.W{"type": n, "constructor": m.name, "creation_number": len(made) + 1, "id_found": gotID, "size": proto.Size(x)})
+								}
+								made = append(made, x)
+								// the caller uses what it was given
+								if idf != nil {
+									x.ProtoReflect().Set(idf, protoreflect.ValueOfMessage((&dtpb.Id{Value: fmt.Sprintf("used-%d", len(made))}).ProtoReflect()))
+								}
+							}
+						}
+					}
 					// contained resource / bundle entry identity
 					var cr *bcrpb.ContainedResource
 					var back fhir.Resource
